@@ -1,9 +1,159 @@
-//! C08: not built yet.
-use crate::out::Out;
-use serde_json::Value;
+//! C08: `analysis::graph::get_program_cfg` / `get_entry_nodes_of_subs` on well-formed normalised
+//! programs.  One event per program: the program, the node and edge lists of the built graph and the
+//! entry-node map.  spec/trace/T_C08.tla compares them (as bags) with spec/Cfg.tla.
+use crate::cfgenc;
+use crate::irenc;
+use crate::irgen::{self, Knobs, RawKnobs};
+use crate::out::{catch, Out};
+use crate::rng::Rng;
+use cwe_checker_lib::analysis::graph::get_program_cfg;
+use cwe_checker_lib::intermediate_representation::*;
+use serde_json::{json, Value};
+use std::collections::BTreeMap;
 
-pub fn gen(_out: &mut Out, _sub: &str) {}
+/// Run the real code on one program and record the event.
+pub fn exec(prog: &Term<Program>, origin: &str) -> Value {
+    let p2 = prog.clone();
+    let res = catch(move || {
+        let g = get_program_cfg(&p2);
+        cfgenc::graph(&g)
+    });
+    let (nodes, edges, entries, panic) = match res {
+        Ok((n, e, en)) => (n, e, en, String::new()),
+        Err(msg) => (json!([]), json!([]), json!([]), msg),
+    };
+    json!({"ev": "cfg", "origin": origin, "program": irenc::program(&prog.term),
+           "nodes": nodes, "edges": edges, "entries": entries, "panic": panic,
+           "serde": irgen::program_to_string(prog)})
+}
 
-pub fn replay(_run: &[Value], _sub: &str) -> Vec<Value> {
-    Vec::new()
+/// feature tag (counted only): the graph has call/return linkage and a jump with an untaken
+/// conditional
+fn nontrivial(ev: &Value) -> bool {
+    let has_cr = ev["nodes"].as_array().unwrap().iter().any(|n| n["k"] == "CallReturn");
+    let has_untaken = ev["edges"].as_array().unwrap().iter().any(|e| e["k"] == "Jump" && e["untaken"] != "");
+    has_cr && has_untaken
+}
+
+fn push(out: &mut Out, prog: &Term<Program>, origin: &str) {
+    let ev = exec(prog, origin);
+    let nt = nontrivial(&ev);
+    out.emit(vec![ev], nt);
+}
+
+pub fn replay(run: &[Value], _sub: &str) -> Vec<Value> {
+    run.iter()
+        .map(|e| {
+            let prog = irgen::program_from_string(e["serde"].as_str().unwrap());
+            exec(&prog, e["origin"].as_str().unwrap_or("replay"))
+        })
+        .collect()
+}
+
+// ---- exhaustive small programs -------------------------------------------------------------
+const N_SHAPES: usize = 10;
+fn enum_block(i: usize, b: usize, nb: usize, n_subs: usize, shape: usize, ext: &Tid) -> Term<Blk> {
+    let me = irgen::blk_tid(i, b);
+    let other = irgen::blk_tid(i, if nb > 1 { 1 - b } else { b });
+    let other_sub = irgen::sub_tid(if n_subs > 1 { 1 - i } else { i });
+    let a = format!("{:08x}", 0x1000 * (i as u64 + 1) + 0x10 * b as u64);
+    let j = |n: usize, t: Jmp| Term { tid: irgen::tid(&format!("instr_{}_{}", a, n), &a), term: t };
+    let cond = irgen::var_expr("ZF");
+    let mut hints = vec![];
+    let jmps = match shape {
+        0 => vec![],
+        1 => vec![j(0, Jmp::Return(irgen::var_expr("RAX")))],
+        2 => vec![j(0, Jmp::Branch(other.clone()))],
+        3 => vec![j(0, Jmp::CBranch { target: me.clone(), condition: cond }), j(1, Jmp::Branch(other.clone()))],
+        4 => {
+            hints = vec![me.clone(), other.clone()];
+            vec![j(0, Jmp::CBranch { target: other.clone(), condition: cond }), j(1, Jmp::BranchInd(irgen::var_expr("RAX")))]
+        }
+        5 => vec![j(0, Jmp::Call { target: other_sub, return_: Some(other.clone()) })],
+        6 => vec![j(0, Jmp::Call { target: irgen::sub_tid(i), return_: None })],
+        7 => vec![j(0, Jmp::Call { target: ext.clone(), return_: Some(other.clone()) })],
+        8 => vec![j(0, Jmp::CallInd { target: irgen::var_expr("RAX"), return_: Some(me.clone()) })],
+        _ => vec![j(0, Jmp::CBranch { target: other.clone(), condition: cond }), j(1, Jmp::Return(irgen::var_expr("RAX")))],
+    };
+    Term { tid: me, term: Blk { defs: vec![], jmps, indirect_jmp_targets: hints } }
+}
+
+/// all programs with <= 2 functions x <= 2 blocks over the 10-shape alphabet
+fn enumerate(out: &mut Out) -> u64 {
+    let ext = irgen::extern_symbol("puts", 0xf020, &["RDI"], Some("RAX"), false);
+    let mut count = 0;
+    // layouts: (n1) and (n1, n2) with n1 in 1..=2, n2 in 0..=2
+    let mut layouts: Vec<Vec<usize>> = vec![vec![1], vec![2]];
+    for n1 in 1..=2 {
+        for n2 in 0..=2 {
+            layouts.push(vec![n1, n2]);
+        }
+    }
+    for lay in layouts {
+        let total: usize = lay.iter().sum();
+        let combos = N_SHAPES.pow(total as u32);
+        for c in 0..combos {
+            let mut digits = c;
+            let mut subs = BTreeMap::new();
+            for (i, nb) in lay.iter().enumerate() {
+                let mut blocks = vec![];
+                for b in 0..*nb {
+                    blocks.push(enum_block(i, b, *nb, lay.len(), digits % N_SHAPES, &ext.tid));
+                    digits /= N_SHAPES;
+                }
+                let st = irgen::sub_tid(i);
+                subs.insert(st.clone(), Term { tid: st, term: Sub { name: format!("f{}", i), blocks, calling_convention: None } });
+            }
+            let prog = Term {
+                tid: irgen::tid("prog_00001000", "00001000"),
+                term: Program {
+                    subs,
+                    extern_symbols: BTreeMap::from([(ext.tid.clone(), ext.clone())]),
+                    entry_points: Default::default(),
+                    address_base_offset: 0,
+                },
+            };
+            push(out, &prog, "enum");
+            count += 1;
+        }
+    }
+    count
+}
+
+pub fn gen(out: &mut Out, _sub: &str) {
+    let mut rng = Rng::new(out.seed ^ 0xC08);
+    // (a) well-formed programs straight from the generator: small dense ones and larger ones
+    let n_direct = out.size(600, 12000);
+    for n in 0..n_direct {
+        let mut r = rng.fork();
+        let mut k = Knobs::default();
+        match n % 4 {
+            0 => { k.max_subs = 2; k.max_blocks = 3; }
+            1 => { k.max_subs = 3; k.max_blocks = 4; k.w_call_internal = 30; k.pct_last_returns = 90; }
+            2 => { k.max_subs = 5; k.max_blocks = 6; }
+            _ => { k.max_subs = 4; k.max_blocks = 4; k.w_branchind = 12; k.w_cbranch_branchind = 10; k.w_cbranch_branch = 14; }
+        }
+        let prog = irgen::gen_program(&mut r, &k);
+        push(out, &prog, "wf");
+    }
+    // (b) outputs of normalize_basic on raw programs (duplicated shared blocks, artificial sinks)
+    let n_norm = out.size(400, 8000);
+    for n in 0..n_norm {
+        let mut r = rng.fork();
+        let mut k = Knobs::default();
+        if n % 2 == 0 { k.max_subs = 3; k.max_blocks = 4; }
+        let raw = irgen::gen_raw_program(&mut r, &k, &RawKnobs::default());
+        let mut project = irgen::project_of(raw);
+        if catch(std::panic::AssertUnwindSafe(|| { let _ = project.normalize_basic(); })).is_err() {
+            continue; // a panic of normalize_basic is C09's business
+        }
+        push(out, &project.program, "norm");
+    }
+    // (c) exhaustive small programs (thorough)
+    if !out.quick() {
+        let n = enumerate(out);
+        out.extra.insert("enumerated_small_programs".into(), json!(n));
+    }
+    out.extra.insert("direct_programs".into(), json!(n_direct));
+    out.extra.insert("normalized_programs".into(), json!(n_norm));
 }
